@@ -121,6 +121,7 @@ func (r *Run) c13Scenario(trans string, v, Q, N int, slow bool, closeWhileBusy b
 			s.lk.drop()
 			s.tc.log.waitCount("close conn", 1, 2*time.Second)
 			time.Sleep(20 * time.Millisecond)
+			events = append(events, "C") // the model's dispatcher drains everything in its next (last) iteration
 		}
 		close(release)
 		for i := 0; i <= N; i++ {
@@ -445,7 +446,7 @@ func (r *Run) c13ReadBeforeRegistration() {
 		var got []string
 		s := &session{tc: newTestClient(), v: 1, trans: trans}
 		s.tc.cli.Subscribe(50, func(p *protocol.Packet) { mu.Lock(); got = append(got, string(p.Body)); mu.Unlock() })
-		opts := []client.DialOption{client.DialTimeout(fDial), client.Keepalive(time.Hour), client.KeepaliveTimeout(2 * time.Hour)}
+		opts := []client.DialOption{client.DialTimeout(fDial), client.Keepalive(time.Hour), client.KeepaliveTimeout(2 * time.Hour), client.ReadQueueSize(8)}
 		errc := make(chan error, 1)
 		var l1 link
 		if trans == "tcp" {
@@ -476,7 +477,21 @@ func (r *Run) c13ReadBeforeRegistration() {
 			case <-time.After(3 * time.Second):
 			}
 			ok := waitUntil(2*time.Second, func() bool { mu.Lock(); defer mu.Unlock(); return len(got) >= 3 })
+			s.tc.log.waitCount("conn receive packet error", 1, time.Second)
 			mu.Lock()
+			{
+				// the same history through Model/Dispatch.v, starting from a connection without a registered callback
+				var cs []string
+				for _, b := range got {
+					cs = append(cs, "0:50:"+hx([]byte(b)))
+				}
+				callStr := "-"
+				if len(cs) > 0 {
+					callStr = strings.Join(cs, ",")
+				}
+				r.emit(fmt.Sprintf("dp.late 8 50:0 R.1.3.50.0.0.%s R.2.3.50.0.0.%s R.3.3.50.0.0.%s C S K K", hx([]byte("e1")), hx([]byte("e2")), hx([]byte("e3"))),
+					fmt.Sprintf("calls=%s drops=%d taken=%d gone=%d", callStr, s.tc.log.count("drop packet for channel full"), s.tc.log.count("got packet"), s.tc.log.count("conn receive packet error")), true)
+			}
 			if !ok || strings.Join(got, ",") != "e1,e2,e3" {
 				r.violate(Violation{What: "pushes read from the connection before the packet callback was registered never reached their handler although nothing overflowed", Case: cs,
 					Impl: strings.Join(got, ","), Expect: "e1,e2,e3", Extra: strings.Join(s.tc.log.snapshot(), "\n")})
